@@ -116,10 +116,15 @@ def make_element(e):
     if t == 'spur':
         if 'E' in e:
             kw['elastic_modulus'] = mkq(e['E'])
+        if e.get('positional'):
+            # arguments passed positionally in the documented order (name, n_teeth, inertia_moment, module, face_width, elastic_modulus)
+            return mo.SpurGear(e['name'], e['z'], mkq(e['J']), kw.get('module'), kw.get('face_width'), kw.get('elastic_modulus'))
         return mo.SpurGear(name=e['name'], n_teeth=e['z'], inertia_moment=mkq(e['J']), **kw)
     if t == 'helical':
         if 'E' in e:
             kw['elastic_modulus'] = mkq(e['E'])
+        if e.get('positional'):
+            return mo.HelicalGear(e['name'], e['z'], mkq(e['J']), mkq(e['helix']), kw.get('module'), kw.get('face_width'), kw.get('elastic_modulus'))
         return mo.HelicalGear(name=e['name'], n_teeth=e['z'], inertia_moment=mkq(e['J']), helix_angle=mkq(e['helix']), **kw)
     if t == 'wormwheel':
         return mo.WormWheel(name=e['name'], n_teeth=e['z'], inertia_moment=mkq(e['J']), helix_angle=mkq(e['helix']),
